@@ -1,6 +1,6 @@
 /* driver of the distfan family:  distfan NP W1 NQ W2 S TS PMUL POFF <trace-prefix> [cores]
  * writes <trace-prefix>.<rank> (ndjson).  Collection A has NA = NP+NQ+2*NC elements, NC = NP*W1,
- * element i lives on rank (i*PMUL + POFF) % nodes and initially holds 1000 + i. */
+ * element i lives on rank (i*PMUL + POFF) % nodes and initially holds 1000 + i; the last NP elements feed P's second flow. */
 #include "parsec/runtime.h"
 #include "parsec/data_distribution.h"
 #include "parsec/data_internal.h"
@@ -16,8 +16,8 @@
 
 static int myrank, nodes;
 
-void df_start(const char *cls, int k, long a, long b, long c)
-{ vt_ev("\"e\":\"Start\",\"p\":%d,\"c\":\"%s\",\"k\":%d,\"in\":[%ld,%ld,%ld]", myrank, cls, k, a, b, c); }
+void df_start(const char *cls, int k, long a, long b, long c, long d)
+{ vt_ev("\"e\":\"Start\",\"p\":%d,\"c\":\"%s\",\"k\":%d,\"in\":[%ld,%ld,%ld,%ld]", myrank, cls, k, a, b, c, d); }
 void df_end(const char *cls, int k, long out)
 { vt_ev("\"e\":\"End\",\"p\":%d,\"c\":\"%s\",\"k\":%d,\"out\":%ld", myrank, cls, k, out); }
 
@@ -51,7 +51,7 @@ static parsec_data_t *data_of_key(parsec_data_collection_t *d, parsec_data_key_t
 
 int main(int argc, char **argv)
 {
-    int provided, NP, W1, NQ, W2, S, TS, NC, NA, i, cores = 2, rc;
+    int provided, NP, W1, NQ, W2, S, TS, NC, NA, X2B, i, cores = 2, rc;
     parsec_context_t *ctx;
     coll_t *c;
     parsec_distfan_taskpool_t *tp;
@@ -63,8 +63,10 @@ int main(int argc, char **argv)
     MPI_Comm_size(MPI_COMM_WORLD, &nodes);
     MPI_Comm_rank(MPI_COMM_WORLD, &myrank);
     NP = atoi(argv[1]); W1 = atoi(argv[2]); NQ = atoi(argv[3]); W2 = atoi(argv[4]); S = atoi(argv[5]); TS = atoi(argv[6]);
-    NC = NP * W1; NA = NP + NQ + 2 * NC;
+    NC = NP * W1;
     if( argc > 10 ) cores = atoi(argv[10]);
+    /* the elements of P's second flow start at a multiple of the process count, so that element X2B+k lives where A(k) lives */
+    X2B = ((NP + NQ + 2 * NC + nodes - 1) / nodes) * nodes; NA = X2B + NP;
     snprintf(path, sizeof(path), "%s.%d", argv[9], myrank);
     vt_init(1 << 16);
     if( vt_open(path) ) return 3;
@@ -82,7 +84,7 @@ int main(int argc, char **argv)
     parsec_data_collection_set_key(&c->super, "A");
     parsec_type_create_contiguous(TS, parsec_datatype_int32_t, &c->super.default_dtt);
 
-    tp = parsec_distfan_new(&c->super, NP, W1, NQ, W2, S, NC, TS);
+    tp = parsec_distfan_new(&c->super, NP, W1, NQ, W2, S, NC, TS, X2B);
     parsec_type_create_contiguous(TS, parsec_datatype_int32_t, &block);
     parsec_type_extent(block, &lb, &extent);
     parsec_arena_datatype_set_type(&tp->arenas_datatypes[PARSEC_distfan_DEFAULT_ADT_IDX], extent, PARSEC_ARENA_ALIGNMENT_SSE, block);
@@ -95,7 +97,7 @@ int main(int argc, char **argv)
     /* final contents of the local elements that have a declared write-back */
     for( i = 0; i < NA; i++ ) {
         if( (int)rank_of_k(c, i) != myrank ) continue;
-        if( i >= NP + NQ + NC && i != NP + NQ + 2 * NC - 1 ) continue;      /* pipeline scratch elements: no write-back declared */
+        if( (i >= NP + NQ + NC && i < NP + NQ + 2 * NC - 1) || (i >= NP + NQ + 2 * NC && i < X2B) ) continue;      /* pipeline scratch elements: no write-back declared */
         vt_ev("\"e\":\"Final\",\"p\":%d,\"i\":%d,\"v\":%ld", myrank, i, df_tile_get(&c->ptr[(size_t)i * TS], TS));
     }
     vt_ev("\"e\":\"Done\",\"p\":%d", myrank);
